@@ -18,14 +18,16 @@ fn anyb() -> u8 {
 }
 #[cfg(not(kani))]
 fn anyb() -> u8 {
-    b'x'
+    crate::nk::any()
 }
 #[cfg(kani)]
 fn assume(c: bool) {
     kani::assume(c)
 }
 #[cfg(not(kani))]
-fn assume(_c: bool) {}
+fn assume(c: bool) {
+    crate::nk::assume(c)
+}
 
 /// Write one symbolic char of width `w` at `buf[at..at+w]`.
 pub fn sym_char_at(buf: &mut [u8; TMAX], at: usize, w: usize) {
